@@ -376,10 +376,22 @@ def damage_scan(read, binary, text_of, comments, same, what, stride=1, offset=0)
     return n, (("KNOWN:" + known) if known else None)
 
 
+def unrepresentable(comps):
+    """directory entries are length-prefixed with one byte: adr(4) stored(4) declared(4) payload-MAC(16) desc-len(1) desc
+    entry-MAC(16) of more than 255 bytes cannot be written (the writer raises OverflowError)"""
+    return any(45 + sum(2 + len(v) for v in c.description.values()) > 255 or any(len(v) > 255 for v in c.description.values())
+               for c in comps)
+
+
 @op("prop.c04bf3")
 def prop_c04bf3(k, c, cs, what, stride, offset):
     key, comments, comps = unhx(k), parse_comments(c), parse_comps(cs)
-    binary = BF3_FILE_SIG + Bf3File({}, parse_comps(cs)).to_binary(len(BF3_FILE_SIG), key)
+    try:
+        binary = BF3_FILE_SIG + Bf3File({}, parse_comps(cs)).to_binary(len(BF3_FILE_SIG), key)
+    except OverflowError:
+        if unrepresentable(comps):
+            return "ok 0 writer-rejects OverflowError"
+        raise
 
     def text_of(b):
         return to_text(b, comments)
